@@ -155,10 +155,12 @@ func execC11c(w *c11cW, x *Exec) *Outcome {
 				if ro.setup != nil {
 					return
 				}
-				// two graphs with the same content; "ag" sorts before "g" in the job
+				// two graphs with the same content; the second name has an upper-case letter and an
+				// underscore (the job store keeps a sanitized form of it, "ag-x", as directory
+				// name), and sorts before "g" in the job
 				// directory, so that a job of the second half of the run can precede a
 				// finished one there
-				for _, gn := range []string{"g", "ag"} {
+				for _, gn := range []string{"g", "Ag_X"} {
 					srv.DB.AddGraph(gn)
 					g, _ := srv.DB.Graph(gn)
 					for _, v := range w.Graph.V {
@@ -182,7 +184,7 @@ func execC11c(w *c11cW, x *Exec) *Outcome {
 					}
 					gn := "g"
 					if i%2 == 1 {
-						gn = "ag"
+						gn = "Ag_X"
 					}
 					ts := &traversalStream{}
 					if err := srv.Srv.Traversal(&gripql.GraphQuery{Graph: gn, Query: p}, ts); err != nil {
@@ -353,7 +355,7 @@ func checkAfterDeath(x *Exec, w *c11cW, jobs []*c11cJob, disk *simkv.Disk, dir s
 		ctx := context.Background()
 		listed := map[string]bool{}
 		graphOf := map[string]string{}
-		for _, gn := range []string{"g", "ag"} {
+		for _, gn := range []string{"g", "Ag_X"} {
 			ls := &jobListStream{}
 			srv.Srv.ListJobs(&gripql.GraphID{Graph: gn}, ls)
 			for _, j := range ls.Jobs {
